@@ -25,6 +25,7 @@ type gen struct {
 	order   []string          // definition order of all names
 	blocks  []string          // names defined by {{block}}
 	big     bool              // thorough tier: larger sets and histories
+	confuse string            // "" undecided, "-" no, else the text of a type-confusion case
 }
 
 // n draws base+[0,span); the big profile adds span on top.
@@ -79,6 +80,8 @@ var wrappers = []string{
 	`<input value="·">`,
 	`<q cite="·">c</q>`,
 	`<p dir="ltr" lang="·">y</p>`,
+	`<a href="javascript:void(0)">·</a>`, // valid, but an analysis error once the set is CSPCompatible
+	`<span onclick="f()">·</span>`,       // same
 }
 
 // typedWrappers only accept safe-type values at run time (a plain string is a
@@ -504,7 +507,27 @@ var adversarial = []string{
 	"&amp;&#x3c;", "%41%", "über", strings.Repeat("A", 70), "", "0", "data:text/html,x", "a\nb", "' onx='y",
 }
 
+// colliding values: the same text under different dynamic types, and the same
+// text in different calls, so that anything memoised per printed value (rather
+// than per call) shows.
+var collidingTexts = []string{"javascript:void0", "<b>x</b>", "/static/app.js", "color:red;", "a&b", "https://e.x/same", "x y"}
+var collidingKinds = []string{"str", "str", "url", "html", "tru", "style", "stringer", "ident"}
+
 func (g *gen) leaf(tag string) *Val {
+	if g.confuse == "" {
+		// one case in ten is a "type confusion" case: most of its values are
+		// one and the same text under varying dynamic types
+		g.confuse = "-"
+		if g.chance(0.1) {
+			g.confuse = g.pick(collidingTexts)
+		}
+	}
+	if g.confuse != "-" && g.chance(0.6) {
+		return &Val{K: g.pick(collidingKinds), S: g.confuse}
+	}
+	if g.chance(0.1) {
+		return &Val{K: g.pick(collidingKinds), S: g.pick(collidingTexts)}
+	}
 	n := g.r.Intn(100)
 	s := g.pick(adversarial) + "#" + tag
 	if strings.HasPrefix(s, "\x00INVALIDUTF8") {
